@@ -184,6 +184,12 @@ func genBatch(t *rapid.T) Case {
 		for j := 0; j < k; j++ {
 			if rapid.IntRange(0, 9).Draw(t, "odd") == 0 {
 				ms = append(ms, rapid.SampledFrom([]string{`1`, `"x"`, `null`, `[]`, `[{}]`, `true`, `{}`}).Draw(t, "nonobj"))
+			} else if rapid.IntRange(0, 9).Draw(t, "failing") == 0 {
+				// requests whose handler fails with a code of the protocol's own: the
+				// call is answered with that error, the notification with silence
+				code := rapid.SampledFrom([]int{-32600, -32700, -32601, 5}).Draw(t, "hcode")
+				idp := rapid.SampledFrom([]string{``, `"id":null,`, `"id":77,`}).Draw(t, "hid")
+				ms = append(ms, fmt.Sprintf(`{"jsonrpc":"2.0",%s"method":"err","params":{"k":%d,"c":%d}}`, idp, 500000+i*10+j, code))
 			} else {
 				ms = append(ms, gen.NthMember(rapid.IntRange(0, gen.ProductSize()-1).Draw(t, "m")))
 			}
